@@ -23,7 +23,7 @@ RULE = (
     "through a generated entry point (subsystem, its envelope, its composite envelope). Oracle: the joint "
     "density matrix reconstructed from the object graph after the call must equal (OxI) rho (OxI)^+ of the "
     "one reconstructed before it (re-normalised for the renormalising types), trace distance <= 1e-8 "
-    "(5e-3 for displacement/squeezing); rejection is accepted only when the ideal result is the zero "
+    "(2.5e-3 for displacement/squeezing); rejection is accepted only when the ideal result is the zero "
     "operator. Non-trivial = the target's reduced state before the call is not a basis state; distinct = "
     "(entry, storage kind, representation, block size, operation type, layout hash)."
 )
@@ -31,7 +31,7 @@ ASSUMPTIONS = [
     "reference model self-tests passed (two independent operator embeddings agree)",
     "states are placed into blocks by assigning correctly shaped arrays after the layout was built through public calls (as the repository's tests do); the call under test is always a public call",
     "user-sized operators (Custom) are given at the target's current public dimension",
-    "ideal action of displacement/squeezing computed at cut-off 26+occupation; tolerance 5e-3",
+    "ideal action of displacement/squeezing computed at cut-off 26+occupation; tolerance 2.5e-3",
     "joint dimension of a world <= 600 before padding",
 ]
 
